@@ -33,7 +33,7 @@ ASSUMPTIONS = ["grid gaps shorter than the roll window (expiry - last trading da
                "chain spans cover the process clock (K3 is reported under C10 only)"]
 REQUIRED = ["C11:lead-resolution", "C11:never-past-last-trading", "C11:monotone", "C11:others-flat", "C11:not-held-at-expiry",
             "C11:roll-closes-old-lead", "C11:new-lead-at-own-quotes"]
-REQUIRED_CATS = ["chain-marked-directly-on-the-broker", "resolution:copied-chain", "second-episode-on-same-chain", "rolled-while-holding-below-threshold", "another-chain-environment-later-in-time", "market-data-keyed-by-chain", "resolution:explicit-unsorted-list", "roll-inside-latency-window", "rolling:ES", "rolling:NK", "rolling:VX", "rolling:ZN", "rolled-while-holding"]
+REQUIRED_CATS = ["resolution:refused-lookup-then-carry-on", "chain-marked-directly-on-the-broker", "resolution:copied-chain", "second-episode-on-same-chain", "rolled-while-holding-below-threshold", "another-chain-environment-later-in-time", "market-data-keyed-by-chain", "resolution:explicit-unsorted-list", "roll-inside-latency-window", "rolling:ES", "rolling:NK", "rolling:VX", "rolling:ZN", "rolled-while-holding"]
 REQUIRED_HITS = ["Broker.transact", "Broker.rebalance"]
 TECHNIQUE = "runtime monitoring: complete enumeration of roll instants against a linear-scan reference; holdings invariants after every step of rolling episodes"
 LEVEL_TEXT = ("Roll instants of every built-in class are enumerated completely per decade (exact instant and +-1us) against an "
@@ -88,6 +88,13 @@ def sys_case(ctx, j, tier):
     prev = -1
     for now in inst:
         AbstractContract.now = now
+        if rng.random() < 0.05:
+            # a look-up that is refused (asking for a contract beyond the last listed one; the caller catches the
+            # IndexError, e.g. while enumerating month=0,1,2,... until it fails) leaves the chain as it was
+            try:
+                ch.lead_contract(now, month=len(ch.contracts) + 1)
+            except IndexError:
+                ctx.cat("resolution:refused-lookup-then-carry-on")
         c1 = ch.static_hashing()
         c2 = ch.lead_contract(now)
         sym = ch.symbol
